@@ -602,7 +602,8 @@ where
         }
 
         // Not considering the whole header
-        if data.len() > self.config.max_packet_size.get() {
+        // Broadcasts are sent prefixed by their length as a u16
+        if data.len() > self.config.max_packet_size.get() || data.len() > usize::from(u16::MAX) {
             return Err(Error::DataTooBig);
         }
 
